@@ -136,9 +136,10 @@ func checkC20(c *Ctx, r *Report) {
 		"R3 in WrapHandler the endpoint function is unreachable from a hook error; EnsureAllowed returns nil only if !RequiresAuth or IsAuthenticated; IsAuthenticated is Session != nil; Context.Session is written only from SessionFromRequest's result",
 		"R4 sessions are stored only by CreateSession/GetSession; CreateSession is called only from the login handler after Authenticate returned nil; Authenticate returns a user only after VerifyArgon2id == true, which is a constant-time compare; logout reaches the session delete",
 		"R5 GetSession has a branch on ExpiresAt whose expired side can reach neither a successful return nor the extension store",
-		"R6 Harden: next.ServeHTTP is reachable only through the allow edge of a predicate over Origin and Sec-Fetch-Site; the refuse edge answers 403",
+		"R6 Harden: next.ServeHTTP is reachable only through the allow edge of a predicate over Origin and Sec-Fetch-Site; the refuse edge answers 403; the predicate's truth table over its header tests (Origin absent / equal to the Host, Sec-Fetch-Site absent / same-origin / same-site / none / cross-site, preflight) equals the table derived from the property text",
+		"R7 look-up, expiry test and extension of a session, its creation and its deletion run under one common mutex, so a logout or an expiry cannot be undone by a request racing it",
 	}
-	r.NotDec = []string{"cookie entropy, timing side channels, SQL behaviour", "the truth table of the cross-site predicate for every header combination", "expiry margins as time arithmetic"}
+	r.NotDec = []string{"cookie entropy, timing side channels, SQL behaviour", "header values outside the tested atoms (e.g. malformed Origin strings)", "expiry margins as time arithmetic"}
 	r.Exhaust = true
 	li := BuildLocks(c)
 
